@@ -204,7 +204,12 @@ pub fn run(args: &Args) -> Report {
 
     // ---- M2 add_line
     let wss = ["", " ", "\t", "  ", "\u{3000}"];
-    let pres = ["", "-", "//", "- ", "// ", "é", "-é ", "#", "x\u{3000}"];
+    // short prefixes, and prefixes longer than any fixed-size scratch buffer (64, 65, 77 and 130 bytes; one with multi-byte characters)
+    let long64 = "#".repeat(64);
+    let long65 = format!("{} ", "#".repeat(64));
+    let long77 = format!("/* {} */ ", "=".repeat(70));
+    let long130 = format!("// {} ", "é".repeat(63));
+    let pres: Vec<&str> = vec!["", "-", "//", "- ", "// ", "é", "-é ", "#", "x\u{3000}", &long64, &long65, &long77, &long130];
     let cont_tokens = [" ", "\t", "\u{3000}", "-", "//", "é", "x", "#"];
     let cont_len = if args.thorough() { 4 } else { 3 };
     let mut generic: Vec<String> = vec![];
@@ -213,7 +218,7 @@ pub fn run(args: &Args) -> Report {
     let mut seen2: HashSet<u64> = HashSet::new();
     let mut nontrivial2: u64 = 0;
     for ws in wss {
-        for pre in pres {
+        for pre in pres.iter().copied() {
             for ty in TYPES {
                 let mut cands: Vec<String> = generic.clone();
                 for t in tails {
@@ -226,6 +231,11 @@ pub fn run(args: &Args) -> Report {
                         cands.push(format!("{ws}{}{t}", &pre[..pre.char_indices().last().unwrap().0]));
                     }
                     cands.push(format!("{ws} {pre}{t}"));
+                    if pre.len() >= 64 {
+                        for k in [63usize, 64, 65, pre.len() + 1] {
+                            cands.push(format!("{ws}{}{t}", " ".repeat(k)));
+                        }
+                    }
                 }
                 for c in cands {
                     if !seen2.insert(h64(&format!("{ws}|{pre}|{ty}|{c}"))) {
